@@ -1039,23 +1039,7 @@ class C01:
                         f"the default {meth} must be the object's uuid (the id written to and read from the document)", k.node.lineno)
         # term codec: stored as its label, rebuilt from it
         cm = "soundevent.data.compat"
-        k = ctx.summ.of_func(cm, "key_from_term")
-        t = ("param", k.params[0])
-        cfile = k.module.relpath
-        if len(k.returns) == 1 and k.returns[0].term == ("attr", t, "label"):
-            ctx.ok("R01.7", f"{cfile}:{k.node.lineno} key_from_term", "a term is stored as its label")
-        else:
-            ctx.bad("R01.7", cfile, "key_from_term", f"return {show(k.returns[0].term)[:40] if k.returns else '-'}",
-                    "a term must be stored as its label (the only permitted reduction); storing anything else changes the label on reload",
-                    k.node.lineno)
-        k2 = ctx.summ.of_func(cm, "term_from_key")
-        kk = ("param", k2.params[0])
-        r = k2.returns[0].term if len(k2.returns) == 1 else None
-        if r is not None and r[0] == "call" and callkw(r).get("label") == kk:
-            ctx.ok("R01.7", f"{cfile}:{k2.node.lineno} term_from_key", "the stored key becomes the label of the rebuilt term")
-        else:
-            ctx.bad("R01.7", cfile, "term_from_key", f"return {show(r)[:60] if r else '-'}",
-                    "term_from_key must rebuild a Term whose label is the stored key", k2.node.lineno)
+        check_term_codec(ctx)
         kft, tfk = ("global", f"{cm}:key_from_term", "func"), ("global", f"{cm}:term_from_key", "func")
         # every Term written goes through key_from_term; every Term read comes from term_from_key
         units = [(l.ci, l.writer_name, l.reader_name) for l in self.ao.leaves.values()] + \
@@ -1113,6 +1097,29 @@ class C01:
 def conjuncts_(t):
     from sa.sym import conjuncts
     return conjuncts(t)
+
+
+def check_term_codec(ctx: Ctx):
+    """key_from_term(term) is the term's label and term_from_key(key) rebuilds a term with that label (R01.7; also what the
+    crowsetta labels `key:value` are made of and parsed with)."""
+    cm = "soundevent.data.compat"
+    k = ctx.summ.of_func(cm, "key_from_term")
+    t = ("param", k.params[0])
+    cfile = k.module.relpath
+    if len(k.returns) == 1 and k.returns[0].term == ("attr", t, "label"):
+        ctx.ok("R01.7", f"{cfile}:{k.node.lineno} key_from_term", "a term is stored as its label")
+    else:
+        ctx.bad("R01.7", cfile, "key_from_term", f"return {show(k.returns[0].term)[:40] if k.returns else '-'}",
+                "a term must be stored as its label (the only permitted reduction); storing anything else changes the label on reload",
+                k.node.lineno)
+    k2 = ctx.summ.of_func(cm, "term_from_key")
+    kk = ("param", k2.params[0])
+    r = k2.returns[0].term if len(k2.returns) == 1 else None
+    if r is not None and r[0] == "call" and callkw(r).get("label") == kk:
+        ctx.ok("R01.7", f"{cfile}:{k2.node.lineno} term_from_key", "the stored key becomes the label of the rebuilt term")
+    else:
+        ctx.bad("R01.7", cfile, "term_from_key", f"return {show(r)[:60] if r else '-'}",
+                "term_from_key must rebuild a Term whose label is the stored key", k2.node.lineno)
 
 
 def run(ctx: Ctx):
